@@ -28,7 +28,9 @@ void check_C11(Src &s, Ctx &ctx) {
                                            OP_LOAD_CONSTR, OP_FINISH_CONSTR, OP_SET_TRANSFORM, OP_CLEAR_TRANSFORM, OP_SET_CONFORMAL, OP_CLEAR_LIMITS, OP_ROUNDTRIP};
     run_history(s, st, kinds, s.pick(10), !s.chance(1, 5), [&](const Op &) {});
     const int outs = st.spec.outs;
-    int route = s.pick(6); int b = 0, e = outs;
+    // sources under construction: make parked (out-of-order) samples likely, they are what a copy must carry over
+    if (st.constructing && !st.target.empty() && s.chance(2, 3)) { Op op; op.kind = OP_LOAD_CONSTR; op.variant = 2; op.count = 2 * s.pick(3); int n = 1 + s.pick(3); for (int i = 0; i < n; i++) op.sel.push_back(s.byte()); apply_op(st, op); }
+    int route = s.weighted({1, 1, 1, 3}); if (route == 3) route = 3 + s.pick(3); int b = 0, e = outs;
     GridState cp = st; cp.ctx = nullptr;   // (GridState copy uses the copy constructor; the grid is replaced below through the chosen route)
     TasmanianSparseGrid &C = cp.g; const TasmanianSparseGrid &S = st.g;
     bool range = false; std::string rname;
